@@ -26,7 +26,9 @@ PROPERTY = 'C14'
 RULE = ('(1) content: base models from Hypothesis (depth <= 2, names a(b-head)/b/c, ##other and ##any wildcards, nine '
         'occurrence ranges) x systematic candidates (every single-node occurrence change to each of 9 ranges, drop / add a '
         'particle, pick a choice branch, wildcard -> element, rename) = both genuine restrictions and non-restrictions, '
-        'XSD 1.0 and 1.1, directly and through xs:redefine; (2) facets: Hypothesis (base, derived) facet sets over the '
+        'XSD 1.0 and 1.1, directly and through xs:redefine; bases sampled from the enumerated depth-2 small scope x every '
+        'candidate, group-prohibiting (0,0) candidates over the scope, all ordered pairs of 5 wildcard kinds x 4x4 occurrence '
+        'pairs; (2) facets: Hypothesis (base, derived) facet sets over the '
         'boundary pools of C02; (3) attributes: use / fixed / type / wildcard pairs x all subsets of a 5-name pool. '
         'Non-trivial: the derived component differs from the base and the library accepted the schema; distinct = '
         'distinct (version, base, derived)')
@@ -242,7 +244,8 @@ def st_attr_pair():
     spec = st.fixed_dictionaries({
         'attrs': st.dictionaries(st.sampled_from(['a', 'b']), one, max_size=2),
         'gref': st.sampled_from([None, 'optional', 'required']),
-        'wc': st.one_of(st.none(), st.tuples(st.sampled_from(['##any', '##other', '##local', 'urn:o', '##targetNamespace']),
+        'wc': st.one_of(st.none(), st.tuples(st.sampled_from(['##any', '##other', '##local', 'urn:o', '##targetNamespace', 'urn:o ##local',
+                                                              '##local ##targetNamespace', 'urn:o urn:p']),
                                              st.sampled_from(['skip', 'lax', 'strict']))),
     })
     return st.tuples(spec, spec)
@@ -310,6 +313,7 @@ def shards(tier, seed):
             out.append(('content', ver, k, tier, seed))
         for k in range(4):
             out.append(('scope', ver, k, tier, seed))
+        out.append(('wildpairs', ver, tier, seed))
         out.append(('facets', ver, tier, seed))
         out.append(('attrs', ver, tier, seed))
         out.append(('redefine', ver, tier, seed))
@@ -329,7 +333,29 @@ def run_shard(desc):
             for op, d in candidates(b):
                 for r in judge_content(ver, b, d if d[0] != 'e' else ('seq', [d], 1, 1), st, False, op):
                     core.report(st, PROPERTY, r)
+        # and the group-prohibiting candidates (minOccurs=maxOccurs=0 on a nested group) of EVERY base of the scope
+        for b in (pool[k::4] if tier == 'thorough' else rnd.sample(pool, 400)):
+            for op, d in candidates(b):
+                if op in ('prohibit:inner_seq', 'prohibit:inner_cho'):
+                    for r in judge_content(ver, b, d, st, False, op):
+                        core.report(st, PROPERTY, r)
         st.sample({'ver': ver, 'bases from': 'small scope, depth 2', 'example': cm.show(pool[len(pool) // 3])})
+        return st
+    if desc[0] == 'wildpairs':
+        # every ordered pair of wildcard kinds x occurrence pairs, alone and next to an element
+        _, ver, tier, seed = desc
+        occs = [(0, 1), (1, 1), (0, 2), (1, None)]
+        for w1 in cm.WILD:
+            for w2 in cm.WILD:
+                for o1 in occs:
+                    for o2 in occs:
+                        for tail in ([], [('e', 'b', 0, 1)]):
+                            b = ('seq', [('e', w1) + o1] + tail, 1, 1)
+                            d = ('seq', [('e', w2) + o2] + tail, 1, 1)
+                            if b != d:
+                                for r in judge_content(ver, b, d, st, False, 'rename:wildcard_to_wildcard' if w1 != w2 else 'occ:inner_leaf'):
+                                    core.report(st, PROPERTY, r)
+        st.sample({'ver': ver, 'wildcard pairs': 'all ordered pairs of %s x 4x4 occurrence pairs, alone / before an optional element' % cm.WILD})
         return st
     if desc[0] in ('content', 'redefine'):
         ver, tier, seed = desc[1], desc[-2], desc[-1]
